@@ -145,7 +145,8 @@ def drive(v, tier, tag, behaviours_file):
                                                "--seed", str(seed()), "--probe", "all"],
                                 os.path.join(work, "gen"), NCPU))
     runs, ln = (120, 40) if tier == "quick" else (1500, 60)
-    for scope, r, l in (("wide", runs, ln), ("size", max(8, runs // 10), ln), ("huge", 6 if tier == "quick" else 32, 7)):
+    for scope, r, l in (("wide", runs, ln), ("size", max(8, runs // 10), ln), ("huge", 6 if tier == "quick" else 32, 7),
+                        ("many", 4 if tier == "quick" else 24, 24)):
         pre = os.path.join(work, "rnd-" + scope)
         n = min(NCPU, r)
         add("random-" + scope, run_shards("storedrive", ["random", pre, "--seed", str(seed()), "--runs", str(r),
